@@ -107,3 +107,29 @@ contract(CO + 'construct_sequence', props=['C14'],
             6: 'one-item-per-entry'},
     invariants={0: _CM_INV + ["typeis(comp, 'list') and fresh(comp)", "exact(node, 'yaml.nodes.SequenceNode')", "len(comp) == loop_i", "len(loop_seq) == old(len(node.value))"]},
     modifies=PROTO_MOD, raises=[CERR], raises_any=True)
+
+
+# ---- C01 / C08: the scalar converters: an explicit tag can put ANY text there -> only ConstructorError may come out
+SCN = 'yaml.constructor.SafeConstructor.'
+contract(SCN + 'construct_scalar', trusted=True,
+         why="'=' value-key indirection (recursion over mapping items): ASSUMED to return the text of a scalar node or raise ConstructorError",
+         requires=[], result='str', ensures=[], modifies=[], raises=[CERR])
+
+contract(SCN + 'construct_yaml_null', props=['C01', 'C08'], requires=["typeis(node, 'obj:yaml.nodes.Node')"], result='none',
+         ensures=["result is None"], labels={0: 'null'}, modifies=[], raises=[CERR])
+contract(SCN + 'construct_yaml_str', props=['C01', 'C08'], requires=["typeis(node, 'obj:yaml.nodes.Node')"], result='str',
+         ensures=[], modifies=[], raises=[CERR])
+contract(SCN + 'construct_yaml_bool', props=['C01', 'C08'], requires=["typeis(node, 'obj:yaml.nodes.Node')"], result='bool',
+         ensures=[], modifies=[], raises=[CERR])
+contract(SCN + 'construct_yaml_int', props=['C01', 'C08'], requires=["typeis(node, 'obj:yaml.nodes.Node')"], result='int',
+         ensures=[], modifies=[],
+         invariants={0: ["typeis(comp, 'list') and fresh(comp)", "forall(j, 0, len(comp), typeis(comp[j], 'int'))"],
+                     1: ["typeis(value, 'int') and typeis(base, 'int') and typeis(sign, 'int')", "typeis(digits, 'list')",
+                         "forall(j, 0, len(digits), typeis(digits[j], 'int'))"]},
+         raises=[CERR])
+contract(SCN + 'construct_yaml_float', props=['C01', 'C08'], requires=["typeis(node, 'obj:yaml.nodes.Node')"], result='float',
+         ensures=[], modifies=[],
+         invariants={0: ["typeis(comp, 'list') and fresh(comp)", "forall(j, 0, len(comp), typeis(comp[j], 'float'))"],
+                     1: ["typeis(value, 'float') and typeis(base, 'int') and typeis(sign, 'int')", "typeis(digits, 'list')",
+                         "forall(j, 0, len(digits), typeis(digits[j], 'float'))"]},
+         raises=[CERR])
